@@ -552,6 +552,7 @@ class Executor(object):
             self.oblige(st, "split-exhaustive", z3.Or([z for _, z, _ in conds]), kind="split")
             splits = conds
         npaths = 0
+        nreturns = 0
         for sp in splits:
             st0 = st.fork()
             if sp is not None:
@@ -562,10 +563,17 @@ class Executor(object):
                 npaths += 1
                 if npaths > self.max_paths:
                     raise CheckerError("path explosion in %s" % contract.target)
+                if not isinstance(out, Raised):
+                    nreturns += 1
                 self.finish_path(st1, out, pre, contract, beh)
         self.paths.append((contract.target, bname, npaths))
         if npaths == 0:
             raise CheckerError("no paths through %s" % contract.target)
+        if nreturns == 0 and beh.ensures and not beh.noreturn and self.unroll_depth is None:
+            # vacuity guard: postconditions that no path ever reaches prove nothing (a model external declared with the wrong
+            # parameters, say, turns every call into a TypeError path)
+            raise CheckerError("no path through %s[%s] returns normally: its postconditions would hold vacuously (declare the "
+                               "behaviour `noreturn` if that is intended)" % (contract.target, bname))
         return npaths
 
     def type_invariants(self, st, values):
